@@ -1,19 +1,15 @@
 SPECIFICATION Spec
 CONSTANTS
-  MaxResp = 2
-  MaxRecv = 2
+  MaxResp = 3
+  MaxRecv = 1
   MaxOps = 4
-  Mode = "base"
+  Mode = "paths+"
 INVARIANT SpentNotEnabled
 INVARIANT EachOnce
 INVARIANT OrdConsistent
 PROPERTY FreedNeverFires
 PROPERTY DisabledNeverFires
-PROPERTY SpentNeverFires
-PROPERTY FiredOneShotGone
 PROPERTY OrderIsRegistrationOrder
 PROPERTY NoRemovalDuringDelivery
-PROPERTY FaultTransparent
 PROPERTY SpecIsLegal
-PROPERTY NoPrefixMatch
 PROPERTY UntouchedFireOnce
